@@ -247,5 +247,8 @@ ImfDate(day, sec) ==
   LET c == CivilY(day) IN
   DayNames[((day + 3) % 7) + 1] \o <<44, 32>> \o Dec2(c.d) \o <<32>> \o MonNames[c.m] \o <<32>> \o Dec4(c.y) \o <<32>>
   \o Dec2(sec \div 3600) \o <<58>> \o Dec2((sec % 3600) \div 60) \o <<58>> \o Dec2(sec % 60) \o TGMT
-DateOK(day, sec) == day >= 0 /\ day <= 2932896 /\ sec >= 0 /\ sec < 86400
+\* 0001-01-01 .. 9999-12-31
+DateOK(day, sec) == day >= 0 - 719162 /\ day <= 2932896 /\ sec >= 0 /\ sec < 86400
+\* years 1..99 print as 0001..0099, which RFC 2822 parsers read as two-digit years: no read-back claim there
+DateReadsBack(day) == day >= 0 - 683003
 =============================================================================
